@@ -163,6 +163,43 @@ static void check_pools(void)
     CHECK(ac == P, "action pool conserved: free + pending + elapsed == capacity");
 }
 
+/* ---- due times: the delta list must encode exactly the model's remaining ticks ------------
+ * (head event: the running hardware counter; every later event: plus the deltas up to it).
+ * A callback that runs late or early shows here on the very step that shifted it, not only
+ * when the action finally falls due. */
+#if ISR == 0
+static void check_due(void)
+{
+    CO_TMR        *t = &node.Tmr;
+    CO_TMR_TIME   *e;
+    CO_TMR_ACTION *a;
+    uint32_t i, j, k;
+    for (k = 0; k < NT; k++) {
+        if (m[k].live) {
+            uint32_t acc = env_tmr_counter, found = 0, due = 0;
+            for (e = t->Use, i = 0; (e != 0) && (i <= P); e = e->Next, i++) {
+                if (i > 0) { acc += e->Delta; }
+                for (a = e->Action, j = 0; (a != 0) && (j <= P); a = a->Next, j++) {
+                    if ((int16_t)a->Id == m[k].id) { found++; due = acc; }
+                }
+            }
+            if (!m[k].pend) {
+                CHECK(found == 1, "a live action that is not yet due hangs on exactly one pending event");
+                CHECK(due == m[k].remain, "the pending lists encode exactly the ticks until the action is due");
+            } else {
+                uint32_t el = 0;
+                for (e = t->Elapsed, i = 0; (e != 0) && (i <= P); e = e->Next, i++) {
+                    for (a = e->Action, j = 0; (a != 0) && (j <= P); a = a->Next, j++) {
+                        if ((int16_t)a->Id == m[k].id) { el++; }
+                    }
+                }
+                CHECK(found == 0 && el == 1, "an action that fell due waits on the elapsed list exactly once");
+            }
+        }
+    }
+}
+#endif
+
 static void check_counts(void)
 {
     uint32_t i;
@@ -313,6 +350,9 @@ void harness(void)
         }
         check_counts();
         check_pools();
+#if ISR == 0
+        check_due();
+#endif
     }
 #if ISR == 2
     /* final flush without preemption: nothing may be lost */
